@@ -121,6 +121,55 @@ UNKNOWN = ('?',) * W
 class Interp:
     def __init__(self, F):
         self.F = F
+        # optional: decides "is this group of named bits non-zero?" for zero tests of non-constant data (predicate abstraction over
+        # "unit is zero"); the caller enumerates the decisions (explore()). Without it such a test is refused.
+        self.oracle = None
+        self.depth = 0
+
+    def nonzero(self, bits, node):
+        """truth value of `bits != 0`"""
+        c = to_int(bits)
+        if c is not None:
+            return bool(c)
+        if any(b == 1 for b in bits):
+            return True
+        if self.oracle is None or any(b == '?' for b in bits):
+            raise Refuse('zero test of non-constant data: ' + ir.pp(node))
+        key = frozenset(b for b in bits if b != 0)
+        return self.oracle(key)
+
+    def explore(self, fn, make_state, args=(), limit=4096):
+        """run fn once per combination of oracle decisions (depth-first over the decisions actually consulted).
+        make_state() -> fresh `this`; returns [(decisions {key: bool}, result bits, this)]"""
+        out = []
+        pending = [[]]
+        while pending:
+            prefix = pending.pop()
+            taken = []
+            decisions = {}
+
+            def oracle(key):
+                if key in decisions:
+                    return decisions[key]
+                i = len(taken)
+                if i < len(prefix):
+                    d = prefix[i]
+                else:
+                    d = False
+                    pending.append(taken[:] + [True])
+                taken.append(d)
+                decisions[key] = d
+                return d
+            self.oracle = oracle
+            try:
+                this = make_state()
+                res = self.run(fn, this, list(args))
+            finally:
+                self.oracle = None
+            out.append((decisions, res, this))
+            if len(out) > limit:
+                raise Refuse('more than %d decision paths' % limit)
+        return out
 
     def run(self, fn, this, args):
         """this: dict field name -> value (bits, or dict for nested objects, or list of bits for arrays); args: list of bits.
@@ -215,9 +264,12 @@ class Interp:
             if e['op'] == '~':
                 return b_not(self.ev(e['e'], fn, this, env))
             if e['op'] == '!':
-                c = to_int(self.ev(e['e'], fn, this, env))
+                cv = self.ev(e['e'], fn, this, env)
+                c = to_int(cv)
                 if c is None:
-                    raise Refuse('! of a non-constant')
+                    if self.oracle is None:
+                        raise Refuse('! of a non-constant')
+                    c = self.nonzero(cv, e)
                 return const_bits(0 if c else 1)
             if e['op'] in ('++', '--'):
                 lv = self.lv(e['e'], fn, this, env)
@@ -260,6 +312,12 @@ class Interp:
                 if len(named) == 1 and named[0] != 1 and named[0] != '?':
                     bit = named[0]
                     return (bit if op == '!=' else b_not((bit,))[0],) + (0,) * (W - 1)
+                if self.oracle is not None:
+                    nz = self.nonzero(a, e)
+                    return const_bits(1 if (nz == (op == '!=')) else 0)
+            if ib is None and ia == 0 and op in ('!=', '==') and self.oracle is not None:
+                nz = self.nonzero(b, e)
+                return const_bits(1 if (nz == (op == '!=')) else 0)
             if ia is None or ib is None:
                 if op in ('==', '!=', '<', '<=', '>', '>='):
                     raise Refuse('comparison of non-constant data: ' + ir.pp(e))
@@ -305,7 +363,31 @@ class Interp:
                 if a is None or b is None:
                     raise Refuse('min/max of non-constants')
                 return const_bits(min(a, b) if g.qn.endswith('min') else max(a, b))
-            raise Refuse('call to ' + g.short)
+            # a library helper with a body: interpret it (value parameters; `this` of a member call is the same object unless an
+            # object expression is given)
+            if g.body is None or self.depth > 8:
+                raise Refuse('call to ' + g.short)
+            obj = this
+            if ir.is_expr(e.get('obj')) and ir.strip(e['obj'])['k'] != 'this':
+                obj = self.obj(e['obj'], fn, this, env)
+                if not isinstance(obj, dict):
+                    raise Refuse('call on a non-object: ' + ir.pp(e))
+            cenv = {}
+            for p, a in zip(g.params, e.get('args', [])):
+                if '&' in (p.get('ty') or '') and 'const' not in (p.get('ty') or ''):
+                    cenv[p['id']] = ['ref', self.lv(a, fn, this, env), None]
+                else:
+                    w = width_of(p['ty']) or W
+                    v = self.ev(a, fn, this, env)
+                    cenv[p['id']] = ['val', trunc(v, w), w]
+            self.depth += 1
+            try:
+                self.stmt(g.body, g, obj, cenv, 0)
+            except _Ret as r:
+                return r.v
+            finally:
+                self.depth -= 1
+            return None
         if k == '_v':
             return e['v']
         if k == 'zero':
@@ -359,30 +441,44 @@ class Interp:
         elif k == 'ret':
             raise _Ret(self.ev(s['e'], fn, this, env) if s.get('e') is not None else None)
         elif k == 'if':
-            c = to_int(self.ev(s['c'], fn, this, env))
+            cv = self.ev(s['c'], fn, this, env)
+            c = to_int(cv)
             if c is None:
-                raise Refuse('non-constant branch condition: ' + ir.pp(s['c']))
+                if self.oracle is None:
+                    raise Refuse('non-constant branch condition: ' + ir.pp(s['c']))
+                c = self.nonzero(cv, s['c'])
             if c:
                 self.stmt(s['t'], fn, this, env, depth)
             elif s.get('e'):
                 self.stmt(s['e'], fn, this, env, depth)
-        elif k == 'for':
-            if s.get('init'):
+        elif k in ('for', 'while', 'do'):
+            if k == 'for' and s.get('init'):
                 self.stmt(s['init'], fn, this, env, depth)
             n = 0
+            first = True
             while True:
-                if s.get('c') is not None:
+                if s.get('c') is not None and not (k == 'do' and first):
                     c = to_int(self.ev(s['c'], fn, this, env))
                     if c is None:
                         raise Refuse('non-constant loop condition: ' + ir.pp(s['c']))
                     if not c:
                         break
-                self.stmt(s.get('body'), fn, this, env, depth)
-                if s.get('inc') is not None:
+                first = False
+                try:
+                    self.stmt(s.get('body'), fn, this, env, depth)
+                except _Break:
+                    break
+                except _Continue:
+                    pass
+                if k == 'for' and s.get('inc') is not None:
                     self.ev(s['inc'], fn, this, env)
                 n += 1
                 if n > 600:
                     raise Refuse('loop does not terminate within 600 iterations')
+        elif k == 'break':
+            raise _Break()
+        elif k == 'cont':
+            raise _Continue()
         elif k == 'rfor':
             arr = self.load(self.lv(s['range'], fn, this, env), env)
             if not isinstance(arr, list):
@@ -393,9 +489,22 @@ class Interp:
                     env[v['id']] = ['ref', ('elem', arr, i), None]
                 else:
                     env[v['id']] = ['val', arr[i], 8]
-                self.stmt(s.get('body'), fn, this, env, depth)
+                try:
+                    self.stmt(s.get('body'), fn, this, env, depth)
+                except _Break:
+                    break
+                except _Continue:
+                    pass
         else:
             raise Refuse('statement kind %s' % k)
+
+
+class _Break(Exception):
+    pass
+
+
+class _Continue(Exception):
+    pass
 
 
 class _Ret(Exception):
